@@ -294,4 +294,68 @@ def iprange (s : St) : R (Option Rng) :=
 /-- `iter_ipranges()` -/
 def iterIpranges (s : St) : List VR := mergedRanges ((iterCidrs s).map vrOf)
 
+/-! ### histories: typed operations over several live sets -/
+
+inductive BinOp where
+  | or | and | sub | xor
+deriving Repr, DecidableEq, Inhabited
+
+/-- one mutating step of a history over indexed live sets.  `pop` carries the block the
+    implementation returned (`none` = it raised KeyError). -/
+inductive Op where
+  | newNone (i : Nat)
+  | newNet (i : Nat) (n : Net)
+  | newRng (i : Nat) (r : Rng)
+  | newSet (i j : Nat)
+  | newList (i : Nat) (xs : List Arg)
+  | add (i : Nat) (x : Arg)
+  | rem (i : Nat) (x : Arg)
+  | updSet (i j : Nat)
+  | updArg (i : Nat) (x : Arg)
+  | updList (i : Nat) (xs : List Arg)
+  | clear (i : Nat)
+  | pop (i : Nat) (b : Option Net)
+  | compact (i : Nat)
+  | copy (j i : Nat)
+  | bin (k i j : Nat) (o : BinOp)
+deriving Repr, Inhabited
+
+def getSet (sets : List St) (i : Nat) : St := sets.getD i []
+def setSet (sets : List St) (i : Nat) (s : St) : List St :=
+  let sets := if sets.length ≤ i then sets ++ List.replicate (i + 1 - sets.length) [] else sets
+  sets.set i s
+
+def binOp (o : BinOp) (a b : St) : St :=
+  match o with
+  | .or => union a b
+  | .and => intersection a b
+  | .sub => difference a b
+  | .xor => symmetricDifference a b
+
+/-- apply one operation; returns the new sets and the index of the touched set
+    (a failing `pop` leaves everything unchanged) -/
+def stepOp (sets : List St) : Op → List St × Nat × Option Err
+  | .newNone i => (setSet sets i [], i, none)
+  | .newNet i n => (setSet sets i (newOfNet n), i, none)
+  | .newRng i r => (setSet sets i (newOfRange r), i, none)
+  | .newSet i j => (setSet sets i (newOfSet (getSet sets j)), i, none)
+  | .newList i xs => (setSet sets i (newOfList xs), i, none)
+  | .add i x => (setSet sets i (add (getSet sets i) x), i, none)
+  | .rem i x => (setSet sets i (remove (getSet sets i) x), i, none)
+  | .updSet i j => (setSet sets i (updateSet (getSet sets i) (getSet sets j)), i, none)
+  | .updArg i x => (setSet sets i (add (getSet sets i) x), i, none)
+  | .updList i xs => (setSet sets i (updateList (getSet sets i) xs), i, none)
+  | .clear i => (setSet sets i [], i, none)
+  | .pop i none => (sets, i, if (getSet sets i).isEmpty then some .key else some .other)
+  | .pop i (some b) =>
+    match pop (getSet sets i) b with
+    | .ok s => (setSet sets i s, i, none)
+    | .error e => (sets, i, some e)
+  | .compact i => (setSet sets i (compact (getSet sets i)), i, none)
+  | .copy j i => (setSet sets j (copy (getSet sets i)), j, none)
+  | .bin k i j o => (setSet sets k (binOp o (getSet sets i) (getSet sets j)), k, none)
+
+/-- run a whole history from no sets at all -/
+def runOps (ops : List Op) : List St := ops.foldl (fun sets op => (stepOp sets op).1) []
+
 end NV.IPSet
